@@ -12,6 +12,7 @@
 (*             (the VM's process table)                                    *)
 (*   ib[w]     "run" | "hold" | "drain": what the operator last asked for  *)
 (*             ("any" while such a request is being carried out)           *)
+(*   ibv[w]    number of such requests for w so far (begun or completed)   *)
 (*   lk        containers that were Locked with priority > 0 when the      *)
 (*             queue data the dispatcher currently holds was polled, or at *)
 (*             some event since (lkNext: the same for a poll under way)    *)
@@ -23,7 +24,7 @@
 (*             decision of the old dispatcher may still be carried out     *)
 (*             while the new one decides again); each entry is the set of  *)
 (*             instances that were (certainly) held or draining when the   *)
-(*             decision was made                                           *)
+(*             decision began, each with its ibv at that moment: <<w, v>>  *)
 (*   mode      which reading of "currently Locked" (clause b) is judged:   *)
 (*             "exact"  scheduler-level binding: a scheduling pass is not  *)
 (*                      interleaved with anything, the queue stub is the   *)
@@ -72,9 +73,9 @@ EXTENDS Naturals, FiniteSets, Sequences
 
 CONSTANTS Ctrs, Wk       \* sets of container / instance identities
 
-VARIABLES api, procs, ib, lk, lkNext, pass, ever, pend, mode
+VARIABLES api, procs, ib, ibv, lk, lkNext, pass, ever, pend, mode
 
-dcvars == <<api, procs, ib, lk, lkNext, pass, ever, pend, mode>>
+dcvars == <<api, procs, ib, ibv, lk, lkNext, pass, ever, pend, mode>>
 
 States == {"Queued", "Locked", "Running", "Complete", "Cancelled"}
 
@@ -86,7 +87,7 @@ RemoveAt(s, i) == SubSeq(s, 1, i - 1) \o SubSeq(s, i + 1, Len(s))
 DCInit(a, m) ==
     /\ api = a
     /\ procs = [w \in Wk |-> {}]
-    /\ ib = [w \in Wk |-> "run"]
+    /\ ib = [w \in Wk |-> "run"] /\ ibv = [w \in Wk |-> 0]
     /\ lk = {} /\ lkNext = {} /\ pass = {}
     /\ ever = {c \in Ctrs : a[c].state = "Locked" /\ a[c].prio > 0}
     /\ pend = [c \in Ctrs |-> NoPend]
@@ -100,36 +101,38 @@ ApiSetEff(c, s, p) ==
          /\ lkNext' = lkNext \cup now
          /\ pass' = pass \cup now
          /\ ever' = ever \cup now
-    /\ UNCHANGED <<procs, ib, pend, mode>>
+    /\ UNCHANGED <<procs, ib, ibv, pend, mode>>
 ApiSet(c, s, p) == ApiSetEff(c, s, p)
 
 (* The dispatcher's queue polls the API server ... *)
-UpdPollEff == lkNext' = {c \in Ctrs : Startable(c)} /\ UNCHANGED <<api, procs, ib, lk, pass, ever, pend, mode>>
+UpdPollEff == lkNext' = {c \in Ctrs : Startable(c)} /\ UNCHANGED <<api, procs, ib, ibv, lk, pass, ever, pend, mode>>
 UpdPoll == UpdPollEff
 (* ... and makes the polled data current. *)
-UpdApplyEff == lk' = lkNext /\ UNCHANGED <<api, procs, ib, lkNext, pass, ever, pend, mode>>
+UpdApplyEff == lk' = lkNext /\ UNCHANGED <<api, procs, ib, ibv, lkNext, pass, ever, pend, mode>>
 UpdApply == UpdApplyEff
 
 (* Both at once (a queue whose refresh is atomic). *)
 UpdAtomicEff == /\ lk' = {c \in Ctrs : Startable(c)} /\ lkNext' = {c \in Ctrs : Startable(c)}
-                /\ UNCHANGED <<api, procs, ib, pass, ever, pend, mode>>
+                /\ UNCHANGED <<api, procs, ib, ibv, pass, ever, pend, mode>>
 UpdAtomic == UpdAtomicEff
 
 (* The dispatcher reads its queue (Entries). *)
-EntriesEff == pass' = lk /\ UNCHANGED <<api, procs, ib, lk, lkNext, ever, pend, mode>>
+EntriesEff == pass' = lk /\ UNCHANGED <<api, procs, ib, ibv, lk, lkNext, ever, pend, mode>>
 Entries == EntriesEff
 
 (* The operator holds / drains / releases instance w. *)
-SetIBEff(w, b) == ib' = [ib EXCEPT ![w] = b] /\ UNCHANGED <<api, procs, lk, lkNext, pass, ever, pend, mode>>
+SetIBEff(w, b) == ib' = [ib EXCEPT ![w] = b] /\ ibv' = [ibv EXCEPT ![w] = @ + 1] /\ UNCHANGED <<api, procs, lk, lkNext, pass, ever, pend, mode>>
 SetIB(w, b) == SetIBEff(w, b)
 
 (* The dispatcher decides to start c (pool.StartContainer accepted it). *)
-(* bad = the instances held or draining when the decision was made (an instance whose idle          *)
-(* behaviour was being changed at that moment is not in it).                                          *)
+(* The decision remembers the instances held or draining when it BEGAN, each with its request count: *)
+(* a process on w contradicts it only if w was held then and no request for w has begun since (a hold *)
+(* released between the beginning of the decision and the exec cannot be told from one released       *)
+(* before the pool chose).                                                                            *)
 (* qs, qp = state and priority the dispatcher's queue reports for c at that moment.                    *)
-Bad == {w \in Wk : ib[w] \in {"hold", "drain"}}
+Bad == {<<w, ibv[w]>> : w \in {x \in Wk : ib[x] \in {"hold", "drain"}}}
 StartCallEff(c, bad) == /\ pend' = [pend EXCEPT ![c] = Append(@, bad)]
-                        /\ UNCHANGED <<api, procs, ib, lk, lkNext, pass, ever, mode>>
+                        /\ UNCHANGED <<api, procs, ib, ibv, lk, lkNext, pass, ever, mode>>
 StartCall(c, bad, qs, qp) ==
     /\ mode = "exact" => qs = "Locked" /\ qp > 0 /\ c \in ever   \* (b)
     /\ mode = "sound" => c \in pass                              \* (b)
@@ -142,50 +145,50 @@ StartCall(c, bad, qs, qp) ==
 ProcStartSnap(c, w, others) ==
     /\ others = {}                                               \* (a)
     /\ \E i \in DOMAIN pend[c] :                                  \* (b) decided, (c) not held / draining then
-         /\ w \notin pend[c][i]
+         /\ <<w, ibv[w]>> \notin pend[c][i]
          /\ pend' = [pend EXCEPT ![c] = RemoveAt(@, i)]
-    /\ UNCHANGED <<api, procs, ib, lk, lkNext, pass, ever, mode>>
+    /\ UNCHANGED <<api, procs, ib, ibv, lk, lkNext, pass, ever, mode>>
 
 (* A crunch-run process for c comes into existence on w. *)
 ProcStartEff(c, w) ==          \* (the model carries out decisions in the order they were made)
     /\ procs' = [procs EXCEPT ![w] = @ \cup {c}]
     /\ pend' = [pend EXCEPT ![c] = IF @ = <<>> THEN @ ELSE Tail(@)]
-    /\ UNCHANGED <<api, ib, lk, lkNext, pass, ever, mode>>
+    /\ UNCHANGED <<api, ib, ibv, lk, lkNext, pass, ever, mode>>
 ProcStart(c, w) ==
     /\ NoProc(c)                                                  \* (a)
     /\ \E i \in DOMAIN pend[c] :                                  \* (b) decided, (c) not held / draining then
-         /\ w \notin pend[c][i]
+         /\ <<w, ibv[w]>> \notin pend[c][i]
          /\ pend' = [pend EXCEPT ![c] = RemoveAt(@, i)]
     /\ procs' = [procs EXCEPT ![w] = @ \cup {c}]
-    /\ UNCHANGED <<api, ib, lk, lkNext, pass, ever, mode>>
+    /\ UNCHANGED <<api, ib, ibv, lk, lkNext, pass, ever, mode>>
 
 (* The start decision for c came to nothing (the exec failed). *)
 StartFailedEff(c) == /\ pend' = [pend EXCEPT ![c] = IF @ = <<>> THEN @ ELSE Tail(@)]
-                     /\ UNCHANGED <<api, procs, ib, lk, lkNext, pass, ever, mode>>
+                     /\ UNCHANGED <<api, procs, ib, ibv, lk, lkNext, pass, ever, mode>>
 StartFailed(c) == /\ \/ pend[c] = <<>> /\ UNCHANGED pend
                      \/ \E i \in DOMAIN pend[c] : pend' = [pend EXCEPT ![c] = RemoveAt(@, i)]
-                  /\ UNCHANGED <<api, procs, ib, lk, lkNext, pass, ever, mode>>
+                  /\ UNCHANGED <<api, procs, ib, ibv, lk, lkNext, pass, ever, mode>>
 
 (* The process of c on w ends (exit, crash, kill). *)
-ProcExitEff(c, w) == procs' = [procs EXCEPT ![w] = @ \ {c}] /\ UNCHANGED <<api, ib, lk, lkNext, pass, ever, pend, mode>>
+ProcExitEff(c, w) == procs' = [procs EXCEPT ![w] = @ \ {c}] /\ UNCHANGED <<api, ib, ibv, lk, lkNext, pass, ever, pend, mode>>
 ProcExit(c, w) == c \in procs[w] /\ ProcExitEff(c, w)
 
 (* Instance w ceases to exist; its processes die with it. *)
 VmGoneEff(w) == /\ procs' = [procs EXCEPT ![w] = {}]
-                /\ ib' = [ib EXCEPT ![w] = "run"]
+                /\ ib' = [ib EXCEPT ![w] = "run"] /\ UNCHANGED ibv
                 /\ UNCHANGED <<api, lk, lkNext, pass, ever, pend, mode>>
 VmGone(w) == VmGoneEff(w)
 
 (* The dispatcher process is replaced: pending decisions are void. *)
 RestartEff == /\ pend' = [c \in Ctrs |-> NoPend]
               /\ lk' = {} /\ lkNext' = {} /\ pass' = {}
-              /\ UNCHANGED <<api, procs, ib, ever, mode>>
+              /\ UNCHANGED <<api, procs, ib, ibv, ever, mode>>
 Restart == RestartEff
 
 (* End-to-end binding: scheduler and pool are replaced inside one process; what the old ones had      *)
 (* already decided may still be carried out.                                                          *)
 SoftRestart == /\ lk' = {} /\ lkNext' = {} /\ pass' = {}
-               /\ UNCHANGED <<api, procs, ib, ever, pend, mode>>
+               /\ UNCHANGED <<api, procs, ib, ibv, ever, pend, mode>>
 
 Other == UNCHANGED dcvars
 
